@@ -217,7 +217,7 @@ func genTTMLAttrs(r *rng, max int) [][2]string {
 }
 
 var ttmlWords = []string{"hello", "world", "Été", "日本語", "a & b", "1 < 2", "x > y", "two words", "42", "- dash", "emoji 😀", "q\"uote", "it's",
-	"&amp;", " lead", "trail ", "  ", "é", "<b>", "]]>", "tab\there", "100%", "a", ""}
+	"&amp;", " lead", "trail ", "  ", "é", "<b>", "]]>", "tab\there", "100%", "a", "", "&lt;", "x&nbsp;y"}
 
 func ttmlWord(r *rng) string { return ttmlWords[r.intn(len(ttmlWords))] }
 
